@@ -2,14 +2,22 @@
 """mkcorpus.py [name-prefix ...] — for every seeded change: apply it, run the quick check of its property
 (VERIF_SEED 1..6 until it reports a violation), and store the op line of the first replay as
 corpus/<Cxx>/<seed>.case, so that the stored seed is detected deterministically from then on (the corpus
-runs first in every check).  Seeds whose case file exists already are skipped.  /repo must be clean."""
+runs first in every check).  Seeds whose case file exists already are skipped.  Each seed is applied to a scratch worktree (VERIF_REPO), never to /repo."""
 import json, os, re, subprocess, sys, glob
-os.environ["VERIF_EVIDENCE_DIR"] = "/verif/.build/seed-evidence"
-V = "/verif"
+os.environ["VERIF_EVIDENCE_DIR"] = os.path.join(os.path.dirname(os.path.dirname(os.path.abspath(__file__))), ".build", "seed-evidence")
+V = os.path.dirname(os.path.dirname(os.path.abspath(__file__)))
 def sh(cmd, env=None):
     return subprocess.run(cmd, shell=True, capture_output=True, text=True, env=env)
-if sh("git -C /repo status --porcelain").stdout.strip():
-    print("REPO-NOT-CLEAN"); sys.exit(2)
+WT = "/tmp/seedwt-%d" % os.getpid()
+def wt_make():
+    sh("git -C /repo worktree remove --force %s; rm -rf %s" % (WT, WT))
+    return sh("git -C /repo worktree add -q --detach %s HEAD" % WT).returncode == 0
+def wt_drop():
+    import hashlib
+    sh("git -C /repo worktree remove --force %s; rm -rf %s" % (WT, WT))
+    h = hashlib.sha1(os.path.realpath(WT).encode()).hexdigest()[:10]
+    for p in glob.glob(V + "/.build/*" + h + "*"):
+        os.remove(p)
 fixprop = {}
 for l in open(V + "/known_findings.txt"):
     m = re.match(r"fixed: property=(C\d\d) (\w+)", l)
@@ -33,12 +41,12 @@ for d in sorted(glob.glob(V + "/seeded/*/")):
     out = "%s/corpus/%s/%s.case" % (V, pid, name)
     if os.path.exists(out):
         continue
-    if sh("git -C /repo apply --whitespace=nowarn %spatch.diff" % d).returncode != 0:
-        print(name, "PATCH-DOES-NOT-APPLY"); continue
+    if not wt_make() or sh("git -C %s apply --whitespace=nowarn %spatch.diff" % (WT, d)).returncode != 0:
+        wt_drop(); print(name, "PATCH-DOES-NOT-APPLY"); continue
     got = None
     try:
         for seed in range(1, 7):
-            env = dict(os.environ); env["VERIF_SEED"] = str(seed)
+            env = dict(os.environ); env["VERIF_SEED"] = str(seed); env["VERIF_REPO"] = WT
             c = sh("cd %s && ./check %s quick" % (V, pid), env=env)
             vl = [l for l in c.stdout.split("\n") if l.startswith("VIOLATION")]
             if not vl:
@@ -60,7 +68,7 @@ for d in sorted(glob.glob(V + "/seeded/*/")):
                 except Exception:
                     pass
     finally:
-        sh("git -C /repo checkout -- . && git -C /repo clean -fdq")
+        wt_drop()
     if got and len(got[0]) < 3000000:
         os.makedirs(os.path.dirname(out), exist_ok=True)
         with open(out, "w") as f:
